@@ -6,6 +6,7 @@ import ast
 from sa import astutil as A
 from sa import cfg as C
 from sa import dataflow as D
+from sa import surface as S
 from sa.index import AnalysisError
 from sa.rules import c03
 
@@ -20,7 +21,7 @@ EXPLANATION = (
     '(c) every concrete primitive implements _decode/encode/dna_spec; (d) '
     'candidates are validated before a value spec is bound, and bound tests '
     'use `is not None` (0 is a bound).  The decode/encode inverse law is not decided.')
-FLOORS = {'C13.a': 2, 'C13.b': 3, 'C13.c': 2, 'C13.d': 2}
+FLOORS = {'C13.a': 2, 'C13.b': 3, 'C13.c': 2, 'C13.d': 2, 'C13.e': 3}
 FILES = ['pyglove/core/hyper/object_template.py', 'pyglove/core/hyper/categorical.py',
          'pyglove/core/hyper/numerical.py', 'pyglove/core/hyper/custom.py',
          'pyglove/core/hyper/base.py', 'pyglove/core/hyper/iter.py',
@@ -219,10 +220,39 @@ def rule_d(ctx):
                  f'`{A.unparse(k.ast)}` used as a boolean: 0 / 0.0 is treated as "no bound"')
 
 
+def rule_e(ctx):
+  """Decoding is re-entrant per decision: inside a `_decode`, a candidate /
+  child template is consumed through `.decode(<its own sub-DNA>)`, whose
+  result is used at once.  Parking the sub-DNA on the (shared) child template
+  with `set_dna` and evaluating later lets a second use of the same candidate
+  overwrite the first: both positions decode to the same value."""
+  idx = ctx.index
+  n = 0
+  for c in idx.all_classes():
+    if not c.module.name.startswith('pyglove.core.hyper.'):
+      continue
+    f = c.methods.get('_decode')
+    if f is None:
+      continue
+    n += 1
+    bad = []
+    for h in S.helper_closure(idx, f):
+      for call in A.calls_in(h.node):
+        if isinstance(call.func, ast.Attribute) and call.func.attr == 'set_dna' and A.unparse(call.func.value) != 'self':
+          bad.append(f'`{A.unparse(call, 70)}` (line {call.lineno})')
+    ctx.ob('C13.e', f.fq, not bad,
+           'child templates are decoded with .decode(sub_dna) and never put into a DNA-carrying state inside _decode',
+           f.loc, 'stateful use of a shared child template: ' + ', '.join(bad) +
+           ' - choosing the same candidate twice with different sub-decisions decodes both positions alike')
+  if n < 3:
+    raise AnalysisError(f'only {n} _decode implementations found')
+
+
 def run(ctx):
   ctx.consult(*FILES)
   rule_a(ctx)
   rule_b(ctx)
   rule_c(ctx)
   rule_d(ctx)
+  rule_e(ctx)
   ctx.assume('decode/encode inverse law, shape of decoded values and iteration counts are not decided')
